@@ -37,7 +37,10 @@ BENIGN = {
 }
 ALPHABET = ["&", "<", ">", '"', "'", "]]>", "&amp;", "&lt;", "<!--", "-->", "<![CDATA[", "<?x", "?>", "</Title>",
             "</MPD>", "é", "ü", "漢字", "\U0001F600", " ", " ", "%", "+", " ", "=", "/", "\\", "$", "$$",
-            "$Number$", "{{7*7}}", "{%", "#", ";", "a", "Z", "0", "\t"]
+            "$Number$", "{{7*7}}", "{%", "#", ";", "a", "Z", "0", "\t",
+            "&nbsp;", "&#0;", "&#x0;", "&#60;", "&apos;", "{0}", "{title}", "}", "%s", "%3C", "%26amp%3B", "0x3c",
+            "PGI+", "{\"a\":\"<\"}", "true", "null", "12345", "xn--nxasmq6b"]
+LENGTHS = [1024, 4095, 4096, 4097, 65535, 65537]
 
 # multi-period streams: key -> [(stream directory, seconds, content types listed in the Period)]
 # bbb has encrypted (_enc) versions of its video and audio tracks and a subtitle track stored only
@@ -58,10 +61,12 @@ MPS_DEFS = {
     "c05mpu": [("bbb", 10.000001, AV), ("tears", 7.999999, AV), ("bbb", 4.1, AVT)],
     "c05mph": [("bbb", 8.5, AVT), ("bbb", 4.004, AV)],
     "c05mpo": [("bbb", 8.008, AVT), ("tears", 16.016, AV), ("bbb", 31.3, AV)],
+    "c05mpv": [("bbb", 10.000499, AV), ("tears", 9.9995, AV)],
+    "c05mpz": [("synntsc", 3.003, AV), ("syn2seg", 1.5, AV), ("synts7", 4, AV)],
 }
 # start offset (seconds) of each Period inside its stream, where it is not 0
 MPS_OFFSETS = {"c05mph": [4, 12.012], "c05mpo": [4.004, 8, 8]}
-FRACTIONAL_MPS = ["c05mpf", "c05mpu", "c05mph", "c05mpo"]
+FRACTIONAL_MPS = ["c05mpf", "c05mpu", "c05mph", "c05mpo", "c05mpv", "c05mpz"]
 ENC_STREAMS = {"bbb", "lyenc"}
 # Streams with varied *track layouts*, built from re-labelled fixture files (the stored
 # representation JSON is rewritten: id, file name, track id, codec string; the media bytes are the
@@ -102,10 +107,52 @@ def get_app():
     global _READY
     app = segchecks.get_app()
     if not _READY:
+        _add_synthetic(app)
         _add_layouts(app)
         _add_mps(app)
         _READY = True
     return app
+
+
+SYNTHETIC = ["syn2seg", "synntsc", "synts7", "synodd"]
+SYNTHETIC_OUTSIDE = ["synlong", "synzero"]
+
+
+def _add_synthetic(app):
+    """streams that differ in the shape of the stored media: the minimum of two segments; NTSC
+    fractions (1001/30000); timescales 1 and 10^7; one very long and one very short segment, a first
+    decode time that is not 0, an audio track shorter / longer than the video timing reference"""
+    import mp4synth
+    mk = mp4synth.make_track
+    mp4synth.register(app, "syn2seg", "Two segments", {
+        "syn2seg_v1": mk("video", 240, [480, 480], samples_per_segment=2, seed=31, track_id=1),
+        "syn2seg_a1": mk("audio", 48000, [96000, 95232], samples_per_segment=[94, 93], seed=32, track_id=2)},
+        timing_from="syn2seg_v1")
+    mp4synth.register(app, "synntsc", "NTSC 30000/1001", {
+        "synntsc_v1": mk("video", 30000, [60060, 60060, 60060, 30030], samples_per_segment=[60, 60, 60, 30], seed=33, track_id=1),
+        "synntsc_a1": mk("audio", 48000, [96096, 96096, 96096, 48048], samples_per_segment=[94, 94, 94, 47], seed=34, track_id=2)},
+        timing_from="synntsc_v1")
+    mp4synth.register(app, "synts7", "Timescale 10^7 and 1", {
+        "synts7_v1": mk("video", 10000000, [20000000, 20000000, 20000001, 9999999], samples_per_segment=4, seed=35, track_id=1),
+        "synts7_a1": mk("audio", 1, [2, 2, 2, 1], samples_per_segment=[2, 2, 2, 1], seed=36, track_id=2)},
+        timing_from="synts7_v1")
+    mp4synth.register(app, "synodd", "Long, short, offset", {
+        "synodd_v1": mk("video", 1000, [30000, 17, 4000, 1], samples_per_segment=[30, 1, 4, 1], seed=37, track_id=1,
+                        first_decode_time=12345, start_number=5),
+        "synodd_a1": mk("audio", 44100, [1323000, 1024, 88200], samples_per_segment=[1292, 1, 86], seed=38, track_id=2),
+        # a little longer than the video timing reference (by less than its last segment)
+        "synodd_a2": mk("audio", 44100, [1323000, 1024, 88200, 100000], samples_per_segment=[1292, 1, 86, 98], seed=39, track_id=3)},
+        timing_from="synodd_v1")
+    # outside the generators (ledger C05/D26, D27): a track that outlasts the timing reference by more than
+    # its last segment, and fragments numbered from 0
+    mp4synth.register(app, "synlong", "Audio outlasts the reference", {
+        "synlong_v1": mk("video", 1000, [30000, 4000], samples_per_segment=[30, 4], seed=40, track_id=1),
+        "synlong_a1": mk("audio", 44100, [1323000, 264600, 441000], samples_per_segment=[1292, 258, 431], seed=41, track_id=2)},
+        timing_from="synlong_v1")
+    mp4synth.register(app, "synzero", "Fragments numbered from 0", {
+        "synzero_v1": mk("video", 1000, [4000, 4000, 4000], samples_per_segment=4, seed=42, track_id=1, start_number=0),
+        "synzero_a1": mk("audio", 44100, [176400, 176400, 176400], samples_per_segment=172, seed=43, track_id=2, start_number=0)},
+        timing_from="synzero_v1")
 
 
 def _add_layouts(app):
@@ -196,6 +243,9 @@ def hostile_string(rng, long_ok: bool = True) -> str:
     s = "".join(rng.choice(ALPHABET) for _ in range(n))
     if long_ok and k > .93:
         s = (s + "<&>\"'x") * rng.choice([40, 300, 1500])
+    elif long_ok and k > .90:
+        n = rng.choice(LENGTHS)
+        s = ((s + "<&>\"'x") * (n // (len(s) + 6) + 1))[:n]
     return s
 
 
@@ -272,7 +322,9 @@ def gen_options(rng, mft: dict, mode: str, stream: str, kind: str) -> list:
         # (a long buffer with a SegmentTimeline costs seconds per request: every entry is rendered)
         add("depth", ["0", "1", "20", "60", "120", "300"] + (["45", "90", "200", "600"] if kind == "multi" else []),
             1.0 if kind in ("multi", "patch") else .5)
-        add("start", ["epoch", "today", "month", "year", "now", "2023-11-05T01:02:03Z", "2024-01-01T05:30:00+05:30"], .4)
+        add("start", ["epoch", "today", "month", "year", "now", "2023-11-05T01:02:03Z", "2024-01-01T05:30:00+05:30",
+                      "2023-12-31T20:30:00-03:30", "2023-12-31T23:30:00-00:30", "2024-01-01T12:45:00+12:45",
+                      "2024-01-01T14:00:00+14:00", "2023-12-31T10:00:00-14:00", "2024-01-01T00:00:00.250Z", ""], .4)
     if "segmentTimeline" in f:
         add("timeline", ["0", "1"], .5)
     add("bugs", ["saio"], .05)
@@ -284,7 +336,7 @@ def gen_options(rng, mft: dict, mode: str, stream: str, kind: str) -> list:
     return q
 
 
-STREAMS_SINGLE = ["bbb", "bbb", "tears", "syn1", "syn2"] + sorted(LAYOUTS)
+STREAMS_SINGLE = ["bbb", "bbb", "tears", "syn1", "syn2"] + sorted(LAYOUTS) + ["syn2seg", "synntsc", "synts7", "synodd"]
 DRM_CHOICES = ["all", "clearkey", "playready", "marlin", "playready-pro", "playready-cenc", "playready-moov",
                "clearkey-cenc", "clearkey-moov", "marlin-cenc", "all-moov", "all-cenc", "marlin,clearkey",
                "playready,marlin", "clearkey,playready-pro", "none"]
@@ -295,7 +347,8 @@ PHASES = [0, 250000, 500000, 750000, 999999, 1, 499999, 500001]
 # instants (UTC, whole seconds) around which clocks are drawn: day, month, year and leap-day boundaries
 ANCHORS = ["2024-02-29T00:00:00", "2024-03-01T00:00:00", "2025-01-01T00:00:00", "2024-12-31T23:59:59",
            "2024-06-01T00:00:00", "2025-03-01T00:00:00", "2024-02-28T23:59:59", "2024-07-14T00:00:00",
-           "2025-10-26T01:00:00", "2024-01-02T12:34:56"]
+           "2025-10-26T01:00:00", "2024-01-02T12:34:56", "2025-02-28T23:59:59", "2025-03-01T00:00:00",
+           "2100-02-28T23:59:59", "2036-02-07T06:28:15", "2038-01-19T03:14:07", "2040-02-06T06:28:15"]
 
 
 def young_stream(rng, query: list, scenario: int | None = None):
@@ -453,6 +506,20 @@ def build_url(case: dict) -> str:
     return path + ("?" + "&".join(parts) if parts else "")
 
 
+def stored_defaults(query: str):
+    """what the 'edit stream defaults' page stores for these option values (the page's own steps)"""
+    from dashlive.server.options.drm_options import DrmSelection
+    from dashlive.server.options.repository import OptionsRepository
+    from dashlive.utils.objects import flatten
+    defaults = OptionsRepository.get_default_options()
+    opts = OptionsRepository.convert_cgi_options(dict(urllib.parse.parse_qsl(query, keep_blank_values=True)),
+                                                 defaults=defaults)
+    changed = opts.remove_default_values(defaults)
+    if "drmSelection" in changed:
+        changed["drmSelection"] = DrmSelection.to_string(changed["drmSelection"])
+    return flatten(changed)
+
+
 class Stored:
     """context manager: write case['stored'] to the database, restore on exit"""
 
@@ -484,6 +551,8 @@ class Stored:
                 for k, v in st.items():
                     if k in ("title", "marlin_la_url", "playready_la_url", "directory"):
                         setattr_undo(lambda m_: s, k, v)
+                    elif k == "defaults":
+                        setattr_undo(lambda m_: s, "defaults", stored_defaults(v))
                     elif k == "repid":
                         mfs = sorted(m.MediaFile.search(stream=s), key=lambda f: f.name)
                         mf = mfs[len(v) % len(mfs)]
@@ -507,10 +576,11 @@ class Stored:
         return False
 
 
-def fetch(app, client, clock, case: dict):
-    """→ (status, body bytes, url)"""
-    url = build_url(case)
-    clock.set(case["now"])
+def fetch(app, client, clock, case: dict, url: str | None = None, now=None):
+    """→ (status, body bytes, url); `url` / `now`: a link taken from an earlier response of the case,
+    requested exactly as it is spelled, with the case's stored strings in place"""
+    url = url or build_url(case)
+    clock.set(now or case["now"])
     with Stored(app, case):
         try:
             r = client.get(url, headers={"Host": case["host"]})
